@@ -8,6 +8,7 @@ package main
 
 import (
 	"fmt"
+	sdk "github.com/cosmos/cosmos-sdk/types"
 	"math/big"
 	"strings"
 
@@ -127,6 +128,23 @@ func c14Run(r *Run, depth, shard int) {
 					if injected {
 						a = a.WithFault(plan...)
 					}
+					// the ledger as the depositor / recipient sees it, before and after
+					var payer sdk.AccAddress
+					var amount math.Int
+					if msg, err := a.Decode(); err == nil {
+						switch x := msg.(type) {
+						case *cctptypes.MsgDepositForBurn:
+							payer, _ = sdk.AccAddressFromBech32(x.From)
+							amount = x.Amount
+						case *cctptypes.MsgDepositForBurnWithCaller:
+							payer, _ = sdk.AccAddressFromBech32(x.From)
+							amount = x.Amount
+						}
+					}
+					var balBefore, supBefore math.Int
+					if payer != nil {
+						balBefore, supBefore = w.Balance(payer, "uusdc"), w.Supply("uusdc")
+					}
 					o := w.Apply(a)
 					r.Transitions++
 					r.Evaluations++
@@ -181,6 +199,14 @@ func c14Run(r *Run, depth, shard int) {
 						}
 						if bad {
 							r.Violate("C14 success without all dependency calls having succeeded: "+pb.name, fmt.Sprintf("%s: %s", a.Desc, depsStr(o.Deps)), rp("", depsStr(o.Deps)))
+						}
+						if pb.ncall == 2 && payer != nil && !amount.IsNil() {
+							// "a deposit never succeeds without the debit and the burn": judged on the committed ledger
+							balAfter, supAfter := w.Balance(payer, "uusdc"), w.Supply("uusdc")
+							if !balBefore.Sub(balAfter).Equal(amount) || !supBefore.Sub(supAfter).Equal(amount) {
+								r.Violate("C14 deposit succeeded without the debit and the burn being committed: "+pb.name,
+									fmt.Sprintf("[%s] %s: depositor %s -> %s, supply %s -> %s, amount %s", flags, a.Desc, balBefore, balAfter, supBefore, supAfter, amount), rp("debited and burnt "+amount.String(), "ok"))
+							}
 						}
 						if pb.ncall == 2 {
 							sent := MessageSentOf(o.Events)
